@@ -73,56 +73,9 @@ func c09Tables(p *Prog, r *Report) {
 	g := p.Global("parser", "systemTables")
 	r.check(len(bad) == 0, rule, "parser.systemTables", p.Pos(g.Pos()), strings.Join(names, ","), strings.Join(bad, " || "))
 
-	// isSystemTable: true only under equal(name, element of systemTables)
-	fn := p.Func("parser", "isSystemTable")
-	var mb []string
-	var eqCalls []*ssa.Call
-	eachCall(fn, func(c ssa.CallInstruction) {
-		if callIsMethod(c, "parser", "Identifier", "equal") {
-			if cc, ok := c.(*ssa.Call); ok {
-				eqCalls = append(eqCalls, cc)
-			}
-		}
-	})
-	usesTable := false
-	eachInstr(fn, func(in ssa.Instruction) {
-		if ld, ok := in.(*ssa.UnOp); ok && sameGlobal(ld.X, g) {
-			usesTable = true
-		}
-	})
-	if !usesTable {
-		mb = append(mb, "does not consult parser.systemTables")
-	}
-	eachInstr(fn, func(in ssa.Instruction) {
-		ret, ok := in.(*ssa.Return)
-		if !ok {
-			return
-		}
-		for _, o := range origins(ret.Results[0]) {
-			c, ok := o.(*ssa.Const)
-			if ok && c.Value != nil && !constant.BoolVal(c.Value) {
-				continue
-			}
-			guarded := false
-			for _, ec := range eqCalls {
-				if guardedBy(ret.Block(), ec, true) || o == ssa.Value(ec) {
-					guarded = true
-				}
-			}
-			if !guarded {
-				mb = append(mb, p.Pos(ret.Pos())+": may return true without a matching Identifier.equal against a table entry")
-			}
-		}
-	})
-	for _, ec := range eqCalls {
-		if len(ec.Call.Args) == 2 && ec.Call.Args[0] != fn.Params[0] {
-			mb = append(mb, p.Pos(ec.Pos())+": compares something other than the queried table name")
-		}
-	}
-	if len(eqCalls) == 0 {
-		mb = append(mb, "no Identifier.equal comparison")
-	}
-	r.check(len(mb) == 0, rule, "parser.isSystemTable", p.Pos(fn.Pos()), "membership through Identifier.equal", strings.Join(dedupe(mb), " || "))
+	// the membership test over the table: true only under equal(name, element of systemTables)
+	mr := membershipRole(p, g)
+	r.check(len(mr.check(p)) == 0, rule, "parser.systemTables:membership", p.Pos(mr.fn.Pos()), "membership through Identifier.equal in "+mr.fn.Name(), strings.Join(mr.check(p), " || "))
 }
 
 // c09Formula: abstract execution of the select decision under all consistent atom assignments.
@@ -138,6 +91,7 @@ func c09Formula(p *Prog, r *Report, rule string) {
 	if ksParam == nil {
 		fatalf("anchor: isHandledSelectStmt has no Identifier parameter")
 	}
+	sysMember := membershipRole(p, p.Global("parser", "systemTables"))
 	n := 0
 	for _, A := range []bool{false, true} {
 		for _, B := range []bool{false, true} {
@@ -178,7 +132,7 @@ func c09Formula(p *Prog, r *Report, rule string) {
 							}
 							unknownCmp = append(unknownCmp, p.Pos(call.Pos()))
 							return set(top)
-						case callIsFunc(call, "parser", "isSystemTable"):
+						case func() bool { _, ok := sysMember.isCall(call); return ok }():
 							if a := sm.eval(st, args[0]); a.K == avSym && a.S == "table" {
 								return set(avBool(S))
 							}
@@ -788,4 +742,175 @@ func sortedMembers(pkg *ssa.Package) []ssa.Member {
 		out = append(out, pkg.Members[k])
 	}
 	return out
+}
+
+// membership helper of a name table (systemTables, nonIdempotentFuncs): either a function that
+// consults the table itself (isSystemTable(name)) or a generic `name.equalAny(table)` helper
+// that is handed the table at the call site.
+type memberRole struct {
+	fn         *ssa.Function
+	sliceParam int // index in fn.Params of the table, -1 when fn loads the global itself
+	g          *ssa.Global
+}
+
+func membershipRole(p *Prog, g *ssa.Global) *memberRole {
+	fns := p.ScopedFuncs("parser")
+	for _, f := range fns {
+		if f.Parent() != nil {
+			continue
+		}
+		loads, eq := false, false
+		eachInstr(f, func(in ssa.Instruction) {
+			if ld, ok := in.(*ssa.UnOp); ok && sameGlobal(ld.X, g) {
+				loads = true
+			}
+			if c, ok := in.(*ssa.Call); ok && callIsMethod(c, "parser", "Identifier", "equal") {
+				eq = true
+			}
+		})
+		_ = eq
+		if loads && f.Signature.Results().Len() == 1 {
+			if b, ok := f.Signature.Results().At(0).Type().Underlying().(*types.Basic); ok && b.Kind() == types.Bool && len(f.Params) == 1 {
+				return &memberRole{fn: f, sliceParam: -1, g: g}
+			}
+		}
+	}
+	// generic helper handed the table
+	var role *memberRole
+	for _, f := range fns {
+		eachCall(f, func(c ssa.CallInstruction) {
+			callee := c.Common().StaticCallee()
+			if callee == nil || callee.Blocks == nil || !p.InRepo(callee) {
+				return
+			}
+			for i, a := range c.Common().Args {
+				for _, o := range origins(a) {
+					if ld, ok := o.(*ssa.UnOp); ok && sameGlobal(ld.X, g) {
+						if res := callee.Signature.Results(); res.Len() == 1 {
+							if b, ok := res.At(0).Type().Underlying().(*types.Basic); ok && b.Kind() == types.Bool {
+								role = &memberRole{fn: callee, sliceParam: i, g: g}
+							}
+						}
+					}
+				}
+			}
+		})
+	}
+	if role == nil {
+		fatalf("anchor: no membership test over parser.%s found", g.Name())
+	}
+	return role
+}
+
+// isCall: the call is the membership test of this table; returns the tested identifier.
+func (m *memberRole) isCall(call ssa.CallInstruction) (ssa.Value, bool) {
+	if call.Common().StaticCallee() != m.fn {
+		return nil, false
+	}
+	args := call.Common().Args
+	if m.sliceParam >= 0 {
+		if m.sliceParam >= len(args) {
+			return nil, false
+		}
+		hit := false
+		for _, o := range origins(args[m.sliceParam]) {
+			if ld, ok := o.(*ssa.UnOp); ok && sameGlobal(ld.X, m.g) {
+				hit = true
+			}
+		}
+		if !hit {
+			return nil, false
+		}
+	}
+	return args[0], true
+}
+
+// check: a membership test through Identifier.equal over the table: true only under a matching
+// comparison of the tested identifier with a table entry, false only after all entries.
+func (m *memberRole) check(p *Prog) []string {
+	fn := m.fn
+	var mb []string
+	var eqCalls []*ssa.Call
+	eachCall(fn, func(c ssa.CallInstruction) {
+		if callIsMethod(c, "parser", "Identifier", "equal") {
+			if cc, ok := c.(*ssa.Call); ok {
+				eqCalls = append(eqCalls, cc)
+			}
+		}
+	})
+	if m.sliceParam < 0 {
+		uses := false
+		eachInstr(fn, func(in ssa.Instruction) {
+			if ld, ok := in.(*ssa.UnOp); ok && sameGlobal(ld.X, m.g) {
+				uses = true
+			}
+		})
+		if !uses {
+			mb = append(mb, "does not consult parser."+m.g.Name())
+		}
+	} else {
+		// the compared entries come from the slice parameter
+		for _, ec := range eqCalls {
+			fromSlice := false
+			for _, o := range origins(ec.Call.Args[1]) {
+				if ld, ok := o.(*ssa.UnOp); ok {
+					if ia, ok := ld.X.(*ssa.IndexAddr); ok {
+						for _, so := range origins(ia.X) {
+							if so == ssa.Value(fn.Params[m.sliceParam]) {
+								fromSlice = true
+							}
+						}
+					}
+				}
+			}
+			if !fromSlice {
+				mb = append(mb, p.Pos(ec.Pos())+": the comparison is not against an entry of the table handed in")
+			}
+		}
+	}
+	eachInstr(fn, func(in ssa.Instruction) {
+		ret, ok := in.(*ssa.Return)
+		if !ok {
+			return
+		}
+		for _, o := range origins(ret.Results[0]) {
+			c, ok := o.(*ssa.Const)
+			if ok && c.Value != nil && !constant.BoolVal(c.Value) {
+				// an early false after a failed comparison gives up after the first entry
+				for _, ct := range dominatingConds(ret.Block()) {
+					if cc, ok := ct.Cond.(*ssa.Call); ok && callIsMethod(cc, "parser", "Identifier", "equal") && !ct.Truth && loopDepthOf(ret.Block()) > 0 {
+						mb = append(mb, p.Pos(ret.Pos())+": gives up after the first table entry")
+					}
+				}
+				continue
+			}
+			guarded := false
+			for _, ec := range eqCalls {
+				if guardedBy(ret.Block(), ec, true) || o == ssa.Value(ec) {
+					guarded = true
+				}
+			}
+			if !guarded {
+				mb = append(mb, p.Pos(ret.Pos())+": may return true without a matching Identifier.equal against a table entry")
+			}
+		}
+	})
+	for _, ec := range eqCalls {
+		subj := false
+		for _, o := range origins(ec.Call.Args[0]) {
+			if o == ssa.Value(fn.Params[0]) {
+				subj = true
+			}
+			if al, ok := o.(*ssa.Alloc); ok && al.Comment == fn.Params[0].Name() {
+				subj = true // value receiver spilled to a local
+			}
+		}
+		if len(ec.Call.Args) == 2 && !subj {
+			mb = append(mb, p.Pos(ec.Pos())+": compares something other than the queried name")
+		}
+	}
+	if len(eqCalls) == 0 {
+		mb = append(mb, "no Identifier.equal comparison")
+	}
+	return dedupe(mb)
 }
